@@ -4,7 +4,7 @@
    `go_guard` delimits the names on which the pinned code is proved to do so;
    its complement is exactly the known-finding classes 1-4. *)
 From Coq Require Import List NArith Bool.
-From Dials Require Import Base.Outcome Base.Runes Text.CaseConv.
+From Dials Require Import Base.Outcome Base.Runes Text.CaseConv Text.BaselineInitialisms.
 Import ListNotations.
 Open Scope N_scope.
 
@@ -58,8 +58,52 @@ Definition boundary_class (p s : seg) (islast : bool) : N :=
   | SRun _, SRun _ => 5   (* not a grouping: adjacent runs must be merged *)
   end.
 
+(* longest-match-first extraction over the source's current list: what
+   "longest-known-initialism extraction" would yield.
+   Class 1 (list-order matching) only explains a run this extraction splits
+   correctly; anything else (e.g. an initialism missing from the list) is not
+   a known finding. *)
+Definition baseline_initialisms : list str := map s2r baseline_initialisms_src.
+
+Fixpoint longest_prefix (inits : list str) (s : str) (best : option (str * str)) : option (str * str) :=
+  match inits with
+  | [] => best
+  | i :: rest =>
+      match strip_prefix i s with
+      | Some s' =>
+          match best with
+          | Some (b, _) => if Nat.ltb (length b) (length i) then longest_prefix rest s (Some (i, s'))
+                           else longest_prefix rest s best
+          | None => longest_prefix rest s (Some (i, s'))
+          end
+      | None => longest_prefix rest s best
+      end
+  end.
+
+Fixpoint extract_longest (fuel : nat) (inits : list str) (s : str) : option words :=
+  match s with
+  | [] => Some []
+  | _ =>
+      match fuel with
+      | O => None
+      | S f =>
+          match longest_prefix inits s None with
+          | Some (i, s') =>
+              match i with
+              | [] => None
+              | _ => match extract_longest f inits s' with Some ws => Some (lower_s i :: ws) | None => None end
+              end
+          | None => None
+          end
+      end
+  end.
+
+Definition longest_ok (r : list str) : bool :=
+  words_eqb (extract_longest (S (length (concat r))) initialisms (concat r))
+            (Some (map lower_s r)).
+
 Definition run_class (r : list str) (islast : bool) : N :=
-  if negb (words_eqb (extract_initialisms (concat r)) (Some (map lower_s r))) then 1
+  if negb (words_eqb (extract_initialisms (concat r)) (Some (map lower_s r))) then (if longest_ok r then 1 else 6)
   else if islast && last_is is_digit (concat r) && negb (N.of_nat (length r) =? 1) then 4
   else 0.
 
